@@ -52,6 +52,7 @@
 #include <unifex/type_erased_stream.hpp>
 
 #include <algorithm>
+#include <csetjmp>
 #include <cstdio>
 #include <cstdlib>
 #include <cstring>
@@ -80,6 +81,13 @@ static int errcode(std::exception_ptr e) {
 static std::string S(int x) { return std::to_string(x); }
 
 // ---------------------------------------------------------------- world
+// When a RUNNING operation object is destroyed the real code has left defined behaviour (whatever is
+// still on the call stack may touch the dead object): the case is abandoned on the spot (longjmp to
+// main, nothing of the case is destructed) after recording the monitor.
+static std::jmp_buf g_abandon;
+static std::string g_res;          // observation segments of the current case so far
+struct World;
+static void abandon_case(World& w);
 struct PendBase { virtual void complete() = 0; };
 
 struct Entry { char mode = 'i'; char chan = 'd'; int val = 0; };       // mode i/p/q
@@ -112,6 +120,7 @@ struct World {
     if (it->second.running) {
       emit(std::string("!!op-destroyed-while-running:") + it->second.kind);
       ub = true;
+      abandon_case(*this);
       // the object is gone: it can no longer be completed by the environment
       if (it->second.kind == 'n') { pendN.erase(it->second.id); }
       if (it->second.kind == 'k') { pendK.erase(it->second.id); }
@@ -534,6 +543,11 @@ static std::string flush(World& w) {
   return s.empty() ? "-" : s;
 }
 
+static void abandon_case(World& w) {
+  g_res += " | " + flush(w);
+  std::longjmp(g_abandon, 1);
+}
+
 static bool one_event(World& w, Ctx& c, const std::string& ev) {
   if (w.ub) return false;
   if (ev == "start") {
@@ -560,7 +574,7 @@ static bool one_event(World& w, Ctx& c, const std::string& ev) {
 }
 
 static std::string event_loop(World& w, Ctx& c, const std::string& events) {
-  std::string res;
+  std::string& res = g_res;
   std::stringstream es(events); std::string ev;
   auto one = [&](const std::string& e) { one_event(w, c, e); res += " | " + flush(w); };
   while (es >> ev) one(ev);
@@ -580,7 +594,7 @@ static std::string event_loop(World& w, Ctx& c, const std::string& events) {
     if (!c.stopped) { one("stop"); continue; }
     res += " | stuck"; break;
   }
-  return res;
+  return std::string();
 }
 
 // manual driver: the harness itself plays the consumer, one next()/cleanup() at a time
@@ -686,12 +700,12 @@ static std::string run_case(const std::string& line) {
   }
   Parser ps(parts[2]);
   Node root = ps.parse();
-  std::string res;
-  if (root.k == "src") res = run_consumer(w, c, HStream{&w, atoi(root.args.at(0).c_str())}, parts[4]);
-  else res = run_consumer(w, c, build(&w, root), parts[4]);
+  g_res = id;
+  if (root.k == "src") run_consumer(w, c, HStream{&w, atoi(root.args.at(0).c_str())}, parts[4]);
+  else run_consumer(w, c, build(&w, root), parts[4]);
   // everything (consumer operation, streams) is destroyed now: no tracked operation may be left
-  for (auto& [p, lo] : w.live) { (void)p; res += std::string(" | !!op-never-destroyed:") + lo.kind; break; }
-  return id + res;
+  for (auto& [p, lo] : w.live) { (void)p; g_res += std::string(" | !!op-never-destroyed:") + lo.kind; break; }
+  return g_res;
 }
 
 int main() {
@@ -700,13 +714,19 @@ int main() {
   while (std::getline(std::cin, line)) {
     if (line.empty()) continue;
     long before = g_live;
-    try {
-      std::string s = run_case(line.substr(line.find(' ') + 1));
-      std::cout << s;
-      std::string().swap(s);
+    if (setjmp(g_abandon) == 0) {
+      try {
+        std::string s = run_case(line.substr(line.find(' ') + 1));
+        std::cout << s;
+        std::string().swap(s);
+      }
+      catch (const std::exception& e) { std::cout << "bad-case " << e.what(); }
+      std::string().swap(g_res);
+      if (g_live != before) std::cout << " | !!leak=" << (g_live - before);
+    } else {
+      std::cout << g_res << " | abandoned";   // the case's objects are deliberately not destructed
+      g_res = std::string();
     }
-    catch (const std::exception& e) { std::cout << "bad-case " << e.what(); }
-    if (g_live != before) std::cout << " | !!leak=" << (g_live - before);
     std::cout << "\n";
   }
   return 0;
